@@ -567,6 +567,11 @@ class Ref(object):
         self.expect_packet_in(in_port, ev[1], W.R_ACTION, ev[2])
       elif ev[0] == "table":
         pm = self.model.ports.get(in_port)
+        if pm is None and in_port == W.OFPP_NONE:
+          # a packet of the controller's own making: looked up as coming
+          # from no port (entries that wildcard in_port apply)
+          pm = {"config": 0}
+          self.sim.probes["table_reinject_from_no_port"] += 1
         if pm is None or pm["config"] & (W.PC_NO_RECV | W.PC_PORT_DOWN):
           # re-injection "from" a missing or receive-disabled port: the
           # specification does not say what happens
@@ -673,16 +678,21 @@ class Ref(object):
     pre = list(pre)
     if not fired:
       if cands:
-        self.dev("C03", "lookup/missed", "frame %s on port %d matches %s but "
-                 "no entry fired" % (_kbrief(key), port,
-                                     [f.brief() for f in cands]),
+        # (which entry fired is read off the entries' counters: an entry
+        # that handled the frame without counting it looks the same from
+        # here, and that is C04's business)
+        self.dev(("C03", "C04"), "lookup/missed", "frame %s on port %d "
+                 "matches %s but no entry fired (no entry's counters "
+                 "advanced)" % (_kbrief(key), port,
+                                [f.brief() for f in cands]),
                  kf=self.lookup_kf(raw))
-        raise Deviation("C03", "lookup/missed", "out of sync")
+        raise Deviation(("C03", "C04"), "lookup/missed", "out of sync")
       sim.probes["lookup_miss"] += 1
       if sorted(outs) != sorted(pre):
         self.dev("C12", "miss-emits", "table miss emitted %d frame(s) "
                  "beyond the %d expected" % (len(outs), len(pre)))
-      if mdl.ports[port]["config"] & W.PC_NO_PACKET_IN:
+      if (mdl.ports.get(port) or {"config": 0})["config"] \
+          & W.PC_NO_PACKET_IN:
         # (packet_ins caused by output:CONTROLLER actions of the same list
         # are somebody else's: only a table-miss one is wrong here)
         miss = [d for d in self.async_in if d["type"] == W.PACKET_IN
